@@ -5,11 +5,11 @@ GEN = ["Const"]
 LEAN_TARGETS = ["MagpyVerif.Props.C13"]
 PROPS = ["MagpyVerif.Props.C13"]
 NOT_SHOWN = {
- "C01": ["segmentH's |sin1 -/+ sin2| case split = the definite Biot-Savart integral for every foot-point position (the integral itself is proved)",
+ "C01": ["the vertices form of Polyline (current_vertices_field: repeat/reshape/sum over consecutive segments) is not modelled; single segments are proved equal to the Biot-Savart integral",
          "Cuboid, Triangle/Tetrahedron/TriangularMesh closed forms = their surface integrals (iterated one-variable integrals; not formalised)",
          "Circle, Cylinder, CylinderSegment: need Bulirsch cel/el3 (Legendre elliptic integral) theory, absent from Mathlib v4.33",
          "all of the above are checked against numerical quadrature of the defining integral by the oracle (rel. 2e-6 outside, 2e-4 inside)"],
- "C13": ["Cuboid = mesh = tetrahedra; Cylinder = sum of segments; partition additivity; Polyline -> Circle: equalities between different closed forms, oracle only"],
+ "C13": ["Cuboid = mesh = tetrahedra; Cylinder = sum of segments; partition additivity of magnets; Polyline -> Circle: equalities between different closed forms, oracle only"],
  "C14": ["flux / circulation laws for general surfaces and loops and for the elliptic-integral classes: quadrature oracle only",
          "Mathlib has the divergence theorem for boxes only and no Stokes theorem for general loops"],
 }["C13"]
